@@ -88,6 +88,7 @@ const UGAB: &str = "input: q/1. input: a -> integer. input: b -> integer. output
 const PAB: &[&str] = &["p(X) :- q(X), X > b - a.", "p(X) :- q(X), X + a > b.", "p(X) :- q(X), not t(X). t(b * a).", "p(X) :- q(X), X > b - a, X != b * a."];
 
 const P0: &[&str] = &[
+    ":- q.", "", "p :- q. :- q, not p.",
     "p :- q.", "p :- not not q.", "p :- q, not t. t :- not q.", "p :- t. t :- q.", "p :- not t. t :- not q.", "{p} :- q.", "p :- q. :- not q.", "p.", "p :- t.", "p :- not t.", "t. p :- t, q.",
     "p :- q. :- p, not q.", "p :- q, t. t.", "p :- q. t :- p.", "p :- q, not t.", "p :- t. t :- u. u :- q.", "{p}. :- p, not q. :- q, not p.", "p :- q, not not p.", "p :- not not p, q.",
     "p :- t. t :- u, q.", "p :- t, not u. t :- q.",
@@ -105,6 +106,7 @@ const S0: &[&str] = &[
 const S1: &[&str] = &[
     "spec: forall X (p(X) <-> q(X)).", "spec: exists X (p(X) <-> q(X)).", "spec(forward): forall X (q(X) -> p(X)). spec(backward): forall X (p(X) -> q(X)).", "spec: forall X (p(X) -> q(X)).",
     "spec: forall X (q(X) and X != 1 <-> p(X)).", "spec: exists X (q(X) and (p(X) <-> X = 0)).", "spec(backward): exists X (p(X) <-> q(X)).", "spec(forward): exists X (p(X) <-> not q(X)).",
+    "spec: forall X$i (p(X$i) -> q(X$i)).", "spec: forall X$s (p(X$s) <-> q(X$s)) or exists N$i (q(N$i) and N$i > 0).", "spec: forall X (p(X) -> exists N$i (X = N$i and q(N$i))).", "spec: exists X$s N$i (q(X$s) and q(N$i) and N$i < X$s) or forall X (p(X) <-> q(X)).",
     "spec: forall X (p(X) <-> q(X)) or exists X (q(X) <-> not p(X)).", "spec: exists X (p(X) <-> not q(X)).", "spec(backward): exists X (p(X) <-> not q(X)). spec(forward): forall X (p(X) -> q(X)).",
     "spec: exists X (q(X) <-> X = X).", "spec: forall X (p(X) <-> q(X)). spec: exists X (p(X) <-> X = X).",
 ];
@@ -222,6 +224,7 @@ pub fn check_case(c: &Case, flag_sets: &[&[&str]], st: &mut VStats, fails: &mut 
             }
         }
         for p in &problems { for e in &p.wf_errors { fails.push(Failure { property: "C09", input: what.clone(), detail: format!("{}: {e}", p.file) }); } }
+        for p in &problems { if let Some(m) = crate::verify::symbol_chain_complaint(p) { fails.push(Failure { property: "C12", input: what.clone(), detail: format!("{}: {m}", p.file) }); } }
         if problems.iter().any(|p| !p.readable) { continue; }
         let want_fw = !flags.contains(&"backward");
         let want_bw = !flags.contains(&"forward");
